@@ -1,0 +1,19 @@
+//go:build verif
+
+package util
+
+// Contracts for the verifier in /verif (comment-only; see /verif/DESIGN.md §3).
+
+// a DeleteMatch is a pure predicate on keys
+//@ functype (f DeleteMatch) call(key string) (b bool)
+//@   effectfree
+//@   ensures b == applyBool(f, key)
+
+// MapDelete removes exactly the string keys selected by match; everything else stays
+//@ func MapDelete(m *sync.Map, match DeleteMatch) (result []interface{})
+//@   requires [map] m != nil && match != nil
+//@   modifies m.dom
+//@   ensures [removed] forall k any :: m.dom[k] <==> (old(m.dom[k]) && !(typeis(k, "string") && applyBool(match, unbox(k, "string"))))
+//@   rangeloop 0: modifies m.dom
+//@   rangeloop 0: invariant [progress] forall k any :: m.dom[k] <==> ($dom0[k] && !($ridx[k] < $ri && typeis(k, "string") && applyBool(match, unbox(k, "string"))))
+//@   rangeloop 0: invariant [start] $dom0 == old(m.dom)
